@@ -90,14 +90,16 @@ type Table struct {
 }
 
 type TermFactory struct {
-	tab    map[string]*Term
-	nextID int
-	tables []*Table
-	tabKey map[string]*Table
+	tab         map[termKey]*Term
+	nextID      int
+	tables      []*Table
+	tabKey      map[string]*Table
+	widenCache  map[int]*Term
+	widenedFrom map[int]*Term
 }
 
 func NewTermFactory() *TermFactory {
-	return &TermFactory{tab: map[string]*Term{}, tabKey: map[string]*Table{}}
+	return &TermFactory{tab: map[termKey]*Term{}, tabKey: map[string]*Table{}}
 }
 
 func mask(w int) uint64 {
@@ -122,13 +124,37 @@ func (t *Term) SVal() int64 {
 	return int64(t.val)
 }
 
+type termKey struct {
+	op         Op
+	w          int
+	val        uint64
+	aux, aux2  int
+	name       string
+	n          int
+	a0, a1, a2 int
+	rest       string
+}
+
 func (f *TermFactory) mk(op Op, w int, val uint64, aux, aux2 int, name string, args ...*Term) *Term {
-	var sb strings.Builder
-	fmt.Fprintf(&sb, "%d:%d:%d:%d:%d:%s", op, w, val, aux, aux2, name)
-	for _, a := range args {
-		fmt.Fprintf(&sb, ",%d", a.id)
+	k := termKey{op: op, w: w, val: val, aux: aux, aux2: aux2, name: name, n: len(args)}
+	switch {
+	case len(args) > 3:
+		var sb strings.Builder
+		for _, a := range args {
+			fmt.Fprintf(&sb, ",%d", a.id)
+		}
+		k.rest = sb.String()
+	default:
+		if len(args) > 0 {
+			k.a0 = args[0].id
+		}
+		if len(args) > 1 {
+			k.a1 = args[1].id
+		}
+		if len(args) > 2 {
+			k.a2 = args[2].id
+		}
 	}
-	k := sb.String()
 	if t, ok := f.tab[k]; ok {
 		return t
 	}
@@ -520,19 +546,47 @@ func (f *TermFactory) FCmp(op Op, a, b *Term) *Term {
 			return f.Bool(x == y)
 		}
 	}
-	return f.mk(op, 0, 0, 0, 0, "", a, b)
+	// IEEE comparison on the bit patterns, in pure bit-vector terms (much cheaper for the
+	// solvers than the FP theory): order-preserving key, NaN and +-0 handled explicitly.
+	w := a.w
+	sign := uint64(1) << uint(w-1)
+	absMask := f.Const(w, sign-1)
+	bothZero := f.Eq(f.Bin(OpBAnd, f.Bin(OpBOr, a, b), absMask), f.Const(w, 0))
+	noNaN := f.And(f.Not(f.FIsNaN(a)), f.Not(f.FIsNaN(b)))
+	key := func(x *Term) *Term {
+		neg := f.Eq(f.Extract(x, w-1, w-1), f.Const(1, 1))
+		return f.Ite(neg, f.BNot(x), f.Bin(OpBOr, x, f.Const(w, sign)))
+	}
+	switch op {
+	case OpFLt:
+		return f.And(noNaN, f.And(f.Not(bothZero), f.Bin(OpUlt, key(a), key(b))))
+	case OpFLe:
+		return f.And(noNaN, f.Or(bothZero, f.Bin(OpUle, key(a), key(b))))
+	}
+	return f.And(noNaN, f.Or(bothZero, f.Eq(a, b)))
 }
+
+func fpLayout(w int) (expMask, mantMask uint64) {
+	if w == 32 {
+		return 0x7f800000, 0x007fffff
+	}
+	return 0x7ff0000000000000, 0x000fffffffffffff
+}
+
 func (f *TermFactory) FIsNaN(a *Term) *Term {
 	if a.IsConst() {
 		return f.Bool(math.IsNaN(fbits(a.w, a.val)))
 	}
-	return f.mk(OpFIsNaN, 0, 0, 0, 0, "", a)
+	em, mm := fpLayout(a.w)
+	return f.And(f.Eq(f.Bin(OpBAnd, a, f.Const(a.w, em)), f.Const(a.w, em)),
+		f.Not(f.Eq(f.Bin(OpBAnd, a, f.Const(a.w, mm)), f.Const(a.w, 0))))
 }
 func (f *TermFactory) FIsInf(a *Term) *Term {
 	if a.IsConst() {
 		return f.Bool(math.IsInf(fbits(a.w, a.val), 0))
 	}
-	return f.mk(OpFIsInf, 0, 0, 0, 0, "", a)
+	em, mm := fpLayout(a.w)
+	return f.Eq(f.Bin(OpBAnd, a, f.Const(a.w, em|mm)), f.Const(a.w, em))
 }
 func (f *TermFactory) FCvt(a *Term, w int) *Term {
 	if a.w == w {
@@ -543,6 +597,23 @@ func (f *TermFactory) FCvt(a *Term, w int) *Term {
 			return f.Const(32, uint64(math.Float32bits(float32(math.Float64frombits(a.val)))))
 		}
 		return f.Const(64, math.Float64bits(float64(math.Float32frombits(uint32(a.val)))))
+	}
+	if w == 64 {
+		return f.fwiden(a)
+	}
+	if w == 32 {
+		// narrowing of a value that was widened from float32 is the identity (also through Abs)
+		if src, ok := f.widenedFrom[a.id]; ok {
+			return src
+		}
+		if a.op == OpBAnd {
+			for i := 0; i < 2; i++ {
+				x, c := a.args[i], a.args[1-i]
+				if src, ok := f.widenedFrom[x.id]; ok && c.IsConst() && c.val == 0x7fffffffffffffff {
+					return f.Bin(OpBAnd, src, f.Const(32, 0x7fffffff))
+				}
+			}
+		}
 	}
 	return f.mk(OpFCvt, w, 0, 0, 0, "", a)
 }
@@ -577,7 +648,11 @@ func (f *TermFactory) FArith(op Op, a, b *Term) *Term {
 		}
 		return f.Const(32, uint64(math.Float32bits(r)))
 	}
-	return f.mk(op, a.w, 0, 0, 0, "", a, b)
+	// Symbolic floating-point arithmetic is abstracted by an uninterpreted function of the
+	// operand bit patterns (sound for validity and for equalities between identically computed
+	// values; arithmetic facts about the result are outside every claim, see DESIGN.md).
+	names := map[Op]string{OpFAdd: "fadd", OpFSub: "fsub", OpFMul: "fmul", OpFDiv: "fdiv"}
+	return f.UF(fmt.Sprintf("%s%d", names[op], a.w), a.w, a, b)
 }
 func (f *TermFactory) IntToFp(a *Term, signed bool, w int) *Term {
 	if a.IsConst() {
@@ -595,10 +670,11 @@ func (f *TermFactory) IntToFp(a *Term, signed bool, w int) *Term {
 		}
 		return f.Const(64, math.Float64bits(r))
 	}
+	// symbolic int->float conversions are abstracted like FP arithmetic (uninterpreted)
 	if signed {
-		return f.mk(OpSIntToFp, w, 0, 0, 0, "", a)
+		return f.UF(fmt.Sprintf("sitofp%d_%d", a.w, w), w, a)
 	}
-	return f.mk(OpUIntToFp, w, 0, 0, 0, "", a)
+	return f.UF(fmt.Sprintf("uitofp%d_%d", a.w, w), w, a)
 }
 func (f *TermFactory) FpToInt(a *Term, signed bool, w int) *Term {
 	if a.IsConst() {
@@ -724,30 +800,38 @@ func (t *Term) body() string {
 }
 
 func (tb *Table) define() string {
-	// nested ite over the index
+	// run-length encoded: nested ite over ascending upper bounds of runs of equal values
 	var sb strings.Builder
 	fmt.Fprintf(&sb, "(define-fun tbl%d ((i %s)) %s ", tb.id, sortStr(tb.iw), sortStr(tb.w))
-	n := 0
-	// group by default = most common value to shorten
-	counts := map[uint64]int{}
-	for _, v := range tb.vals {
-		counts[v]++
+	type run struct {
+		hi  int
+		val uint64
 	}
-	var def uint64
-	best := -1
-	for v, c := range counts {
-		if c > best || c == best && v < def {
-			best, def = c, v
-		}
-	}
+	var runs []run
 	for i, v := range tb.vals {
-		if v == def {
-			continue
+		if len(runs) > 0 && runs[len(runs)-1].val == v {
+			runs[len(runs)-1].hi = i
+		} else {
+			runs = append(runs, run{i, v})
 		}
-		fmt.Fprintf(&sb, "(ite (= i %s) %s ", constStr(tb.iw, uint64(i)), constStr(tb.w, v))
+	}
+	// indices beyond the table read 0 (never happens after the bounds check)
+	if len(tb.vals) < (1 << uint(tb.iw)) {
+		if len(runs) > 0 && runs[len(runs)-1].val == 0 {
+			runs[len(runs)-1].hi = 1<<uint(tb.iw) - 1
+		} else {
+			runs = append(runs, run{1<<uint(tb.iw) - 1, 0})
+		}
+	}
+	n := 0
+	for k, r := range runs {
+		if k == len(runs)-1 {
+			sb.WriteString(constStr(tb.w, r.val))
+			break
+		}
+		fmt.Fprintf(&sb, "(ite (bvule i %s) %s ", constStr(tb.iw, uint64(r.hi)), constStr(tb.w, r.val))
 		n++
 	}
-	sb.WriteString(constStr(tb.w, def))
 	sb.WriteString(strings.Repeat(")", n))
 	sb.WriteString(")")
 	return sb.String()
@@ -858,4 +942,41 @@ func (f *TermFactory) umin(t *Term) uint64 {
 		}
 	}
 	return 0
+}
+
+// fwiden: exact float32 -> float64 conversion on bit patterns, in bit-vector terms.
+func (f *TermFactory) fwiden(a *Term) *Term {
+	if t, ok := f.widenCache[a.id]; ok {
+		return t
+	}
+	sign := f.Extract(a, 31, 31)
+	e := f.Extract(a, 30, 23)
+	m := f.Extract(a, 22, 0)
+	m52 := f.Concat(m, f.Const(29, 0))
+	e11 := f.ZExt(e, 11)
+	// normal
+	normal := f.Concat(f.Bin(OpAdd, e11, f.Const(11, 896)), m52)
+	// inf / nan
+	special := f.Concat(f.Const(11, 0x7ff), m52)
+	// subnormal: priority chain over the position k of the leading one of m
+	sub := f.Const(63, 0) // m == 0: zero
+	for k := 0; k <= 22; k++ {
+		bit := f.Eq(f.Extract(m, k, k), f.Const(1, 1))
+		// shifted mantissa without the leading one: (m << (23-k)) & 0x7fffff
+		sh := f.Bin(OpBAnd, f.Bin(OpShl, m, f.Const(23, uint64(23-k))), f.Const(23, 0x7fffff))
+		val := f.Concat(f.Const(11, uint64(874+k)), f.Concat(sh, f.Const(29, 0)))
+		sub = f.Ite(bit, val, sub) // later (higher) k overrides: built from low to high
+	}
+	isZeroExp := f.Eq(e, f.Const(8, 0))
+	isMaxExp := f.Eq(e, f.Const(8, 0xff))
+	body := f.Ite(isMaxExp, special, f.Ite(isZeroExp, sub, normal))
+	r := f.Concat(sign, body)
+	// keep a marker so that narrowing peepholes can recognise widened values
+	if f.widenCache == nil {
+		f.widenCache = map[int]*Term{}
+		f.widenedFrom = map[int]*Term{}
+	}
+	f.widenCache[a.id] = r
+	f.widenedFrom[r.id] = a
+	return r
 }
